@@ -145,7 +145,20 @@ def run_case(spec):
                     inputs[k] = np.array(ex[k], copy=True)
             with common.Quiet():
                 rel = A.AurelCore(fd, **kw)
-                if spec['route'] == 'load_data' and spec['hseed'] % 2 and len(inputs) > 1:
+                if spec['route'] == 'load_data' and spec['hseed'] % 4 == 3 and len(inputs) > 1:
+                    # some inputs typed in by hand and looked at, the rest loaded:
+                    # load_data freezes everything that is in data at that moment
+                    names = list(inputs)
+                    half = max(1, len(names) // 2)
+                    rel.clear_cache_every_nbr_calc = 10 ** 9
+                    rel.memory_threshold_inGB = 1e9
+                    for k in names[:half]:
+                        rel.data[k] = inputs[k]
+                        rel[k]
+                    rel.load_data({k: [inputs[k]] for k in names[half:]}, 0)
+                    rel.clear_cache_every_nbr_calc = spec['cache']['every']
+                    rel.memory_threshold_inGB = spec['cache']['gb']
+                elif spec['route'] == 'load_data' and spec['hseed'] % 2 and len(inputs) > 1:
                     # geometry first, a look at it, then the rest: the second
                     # call must not disturb what the first one froze
                     names = list(inputs)
